@@ -17,11 +17,44 @@ import registry    # noqa: E402
 import selftest    # noqa: E402
 
 
+def baseline(props):
+    """violation keys on the unchanged tree; cached per state of the checker sources and of /repo"""
+    import hashlib
+    h = hashlib.sha256()
+    for root, _, files in sorted(os.walk(HERE)):
+        if ".work" in root or "driver/target" in root or "__pycache__" in root:
+            continue
+        for f in sorted(files):
+            if f.endswith((".py", ".json", ".rs", ".toml")):
+                h.update(open(os.path.join(root, f), "rb").read())
+    h.update(subprocess.run(["git", "-C", runner.REPO, "rev-parse", "HEAD"], capture_output=True).stdout)
+    h.update(subprocess.run(["git", "-C", runner.REPO, "diff"], capture_output=True).stdout)
+    key = h.hexdigest()
+    cf = os.path.join(runner.WORK, "baseline-keys.json")
+    try:
+        c = json.load(open(cf))
+        if c.get("key") == key and all(p in c["keys"] for p in props):
+            return {p: c["keys"][p] for p in props}
+    except Exception:
+        pass
+    base_ff, _ = runner.run_driver("dev")
+    allp = sorted(registry.PROPS)
+    keys = selftest.run_props(allp, base_ff)
+    tmp = cf + ".%d" % os.getpid()
+    json.dump({"key": key, "keys": keys}, open(tmp, "w"))
+    os.replace(tmp, cf)
+    return {p: keys[p] for p in props}
+
+
 def main():
     patch = os.path.abspath(sys.argv[1])
     props = sys.argv[2:] or sorted(registry.PROPS)
-    base_ff, _ = runner.run_driver("dev")
-    base = selftest.run_props(props, base_ff)
+    base = baseline(props)
+    slot = os.environ.get("EVAL_SLOT", "")
+    tag = "selftest" + slot
+    tdir = os.path.join(runner.WORK, "target-dev-" + tag)
+    if slot and not os.path.isdir(tdir) and os.path.isdir(os.path.join(runner.WORK, "target-dev-selftest")):
+        subprocess.run(["cp", "-r", os.path.join(runner.WORK, "target-dev-selftest"), tdir], check=True)
     scratch = tempfile.mkdtemp(prefix="sodg-seed-")
     try:
         work = os.path.join(scratch, "repo")
@@ -31,7 +64,7 @@ def main():
             print("PATCH DOES NOT APPLY:", p.stdout, p.stderr)
             sys.exit(2)
         try:
-            ff, dt = runner.run_driver("dev", repo=work, tag="selftest")
+            ff, dt = runner.run_driver("dev", repo=work, tag=tag)
         except runner.DriverError as ex:
             print("DOES NOT COMPILE:", str(ex)[-800:])
             sys.exit(3)
